@@ -62,7 +62,11 @@ Limit == IF InMacro THEN MacroDefs[st.mi].max ELSE MaxNodes
 GateSet == IF InMacro THEN MacroDefs[st.mi].gates ELSE IF Depth = 1 THEN OuterGates ELSE TopGates
 EnclosedBy(kinds) == \E d \in 1..Depth : st.stk[d].kind \in kinds
 
+\* an opener with the field `any` may be opened in every context: the builder API does not enforce the grammar's nesting
+\* (a loop as a direct branch of a parallel block cannot be written as text, but it can be built)
+OLoopAny(cnt, par) == [k |-> "loop", count |-> cnt, par |-> par, any |-> TRUE]
 LegalOpen(o) ==
+  IF "any" \in DOMAIN o THEN TRUE ELSE
   CASE o.k = "seq" -> TopF.kind \in {"top", "par"}
     [] o.k = "par" -> TopF.kind \in {"top", "seq", "sub"}
     [] o.k = "loop" -> TopF.kind \in {"top", "seq", "sub"}
